@@ -7,7 +7,8 @@ def split(iterable, condition):
         iterable, ci = tee(iterable)          -- tee0
         condition = map(condition, ci)
     i1, i2 = tee(iterable)                    -- tee1
-    c1, c2 = tee(condition)                   -- tee2
+    c1, c2 = tee(map(bool, condition))        -- tee2 (after fix 79af58b: the truth value is taken once,
+                                              --  when the condition is evaluated; `truthy` below is that value)
     return compress(i1, c1), compress(i2, map(op.not_, c2))
 ```
 
